@@ -224,7 +224,10 @@ def generate():
     items.append("def dtorTryPopFlags : List Bool := %s" % _flags(m.group(1)))
     _need(r",\s*_free_pages\.capacity\(\)\s*\)\s*;", ct, "destructor pops capacity()")
     ba = strip_comments(pf("BatchPageAllocator", "allocate", 0))
-    _need(r"if\s*\(local\.next_page < local\.buffer\.end\(\)\)\s*\{\s*return \*local\.next_page\+\+;\s*\}\s*_upstream->allocate\(local\.buffer\.data\(\),\s*_batch_size\);\s*local\.next_page = local\.buffer\.begin\(\) \+ 1;\s*return \*local\.buffer\.data\(\);",
+    # (an optional lazy `buffer.resize(_batch_size)` in front of the refill does not change the token moves)
+    _need(r"if\s*\(local\.next_page < local\.buffer\.end\(\)\)\s*\{\s*return \*local\.next_page\+\+;\s*\}\s*"
+          r"(?:if\s*\([^{};]*local\.buffer\.size\(\)\s*!=\s*_batch_size[^{};]*\)\s*\{\s*local\.buffer\.resize\(_batch_size\);\s*\}\s*)?"
+          r"_upstream->allocate\(local\.buffer\.data\(\),\s*_batch_size\);\s*local\.next_page = local\.buffer\.begin\(\) \+ 1;\s*return \*local\.buffer\.data\(\);",
           ba, "BatchPageAllocator::allocate shape")
     items.append(nat_def("batchShapeChecked", 1))
     # counter update relative to the forwarded call: Counting counts BEFORE, PageHeap AFTER
